@@ -177,7 +177,11 @@ var Features = []Feature{
 	}},
 	{Name: "col_w_default_blob", Apply: func(d *DB) {
 		t := d.Table("t")
-		t.Cols = append(t.Cols, Col{Name: "w", Type: "blob", Default: "X'ABCD'", DefExpr: true})
+		t.Cols = append(t.Cols, Col{Name: "w", Type: "blob", Default: "X'00112233445566778899AABB'", DefExpr: true})
+	}},
+	{Name: "col_w2_default_long_blob_as_hcl_string", Apply: func(d *DB) {
+		t := d.Table("t")
+		t.Cols = append(t.Cols, Col{Name: "w2", Type: "blob", Default: "X'00112233445566778899AABB'"})
 	}},
 	{Name: "col_h_virtual", Apply: func(d *DB) {
 		t := d.Table("t")
@@ -654,6 +658,9 @@ func (d *DB) HCL() string {
 					fmt.Fprintf(&b, "    default = sql(%s)\n", hclStr(c.Default))
 				case strings.HasPrefix(c.Default, "'"):
 					fmt.Fprintf(&b, "    default = %s\n", hclStr(strings.ReplaceAll(c.Default[1:len(c.Default)-1], "''", "'")))
+				case strings.HasPrefix(c.Default, "X'"):
+					// a BLOB literal handed over as a plain HCL string.
+					fmt.Fprintf(&b, "    default = %s\n", hclStr(c.Default))
 				case strings.HasPrefix(c.Default, "\""):
 					// SQLite reads a double-quoted token that names no column as a string literal.
 					fmt.Fprintf(&b, "    default = %s\n", hclStr(strings.ReplaceAll(c.Default[1:len(c.Default)-1], "\"\"", "\"")))
